@@ -389,6 +389,15 @@ func (exp *SplitExp) resolveRefs(self, siblings map[string]*ResolvedBinding,
 					Exp:  rs,
 					Type: s.Type,
 				}
+			case *DisabledExp:
+				// The call which is referred to may be disabled at
+				// run time.  The source is still that call.
+				if ref, ok := rs.Value.(*RefExp); ok {
+					src = &BoundReference{
+						Exp:  ref,
+						Type: s.Type,
+					}
+				}
 			case MapCallSource:
 				src = rs
 			}
